@@ -107,6 +107,10 @@ def rand_scalar(rng, fd, nonzero=True):
     raise AssertionError(t)
 
 
+# set (and reset) by a caller that wants google.protobuf.Struct fields filled too (C05's flattened-argument generator)
+GENERATE_STRUCT = [False]
+
+
 def rand_valuation(rng, desc, depth=0, max_depth=3, p_field=0.6, skip=()):
     """Random canonical valuation of message descriptor ``desc``."""
     val = {}
@@ -127,7 +131,8 @@ def rand_valuation(rng, desc, depth=0, max_depth=3, p_field=0.6, skip=()):
                 continue
         elif rng.random() > p_field:
             continue
-        if fd.type == FD.TYPE_MESSAGE and _leaf_type(fd).full_name in UNGENERATED:
+        if fd.type == FD.TYPE_MESSAGE and _leaf_type(fd).full_name in UNGENERATED and not (
+                GENERATE_STRUCT[0] and _leaf_type(fd).full_name == "google.protobuf.Struct" and not _is_map(fd)):
             continue
         if _is_map(fd):
             kf = fd.message_type.fields_by_name["key"]
@@ -176,6 +181,9 @@ def _rand_msg(rng, fd, depth, max_depth):
         return {"value": rand_string(rng)}
     if fn == "google.protobuf.Value":
         return rng.choice([{"string_value": rand_string(rng)}, {"number_value": rng.randint(-50, 50) / 4.0}, {"bool_value": True}])
+    if fn == "google.protobuf.Struct":
+        return {"fields": {"__map": [[k, rng.choice([{"string_value": rand_string(rng)}, {"number_value": rng.randint(-50, 50) / 4.0}, {"bool_value": True}])]
+                                     for k in rng.sample(["a", "b", "row", "k 1"], rng.randint(1, 2))]}}
     if fn == "google.protobuf.FieldMask":
         return {"paths": [rng.choice(["name", "size", "a.b", "tags"]) for _ in range(rng.randint(1, 2))]}
     return rand_valuation(rng, fd.message_type, depth + 1, max_depth, p_field=0.5)
@@ -281,6 +289,11 @@ def _native_msg(fd, v):
     fn = fd.message_type.full_name
     if fn in WKT_LEAF:
         return WKT_LEAF[fn](**v)
+    if fn == "google.protobuf.Struct":
+        st = struct_pb2.Struct()
+        for k, x in (v.get("fields") or {"__map": []})["__map"]:
+            st.fields[k].CopyFrom(struct_pb2.Value(**x))
+        return st
     return to_native(fd.message_type, v)
 
 
